@@ -197,12 +197,12 @@ def tables_worker(args):
     """struct/union, field, enum and typename tables of an out-of-line ABI module: the real encoder classes of
     recompiler.py produce the module's literals (format_four_bytes / as_python_bytes are represented by 4 symbolic
     big-endian bytes each -- their correctness is the 'python-codec' case), the real ffiobj_init decodes them."""
-    prop, tier, kind, flags_text, bitfield = args
+    prop, tier, kind, flags_text, bitfield, enum_row = args
     chk = hutil.sub_check(prop, tier)
     mod = irgen.backend()
     sys.path.insert(0, os.path.join(common.REPO, 'src'))
     from cffi import recompiler, cffi_opcode
-    label = 'tables:flags=%s:%s' % (flags_text, 'bitfield' if bitfield else 'plain-field')
+    label = 'tables:flags=%s:%s:enum-%d-bytes-%s' % (flags_text, 'bitfield' if bitfield else 'plain-field', enum_row[0], 'signed' if enum_row[1] else 'unsigned')
     FF = mod.struct_layout(('named', 'struct.FFIObject_s'))
     tb_off = FF[0][6]
     ctxl = mod.struct_layout(('named', 'struct._cffi_type_context_s'))[0]
@@ -237,7 +237,7 @@ def tables_worker(args):
             ex.assume(z3.And(z3.Extract(7, 0, F_word) == want_op, z3.ULT(F_word, 1 << 31)))
             fields = [] if 'OPAQUE' in flags_text else [recompiler.FieldExpr('fld', 'offsetof', 'sizeof', F_bits, Op(want_op, F_word))]
             su = recompiler.StructUnionExpr('s_name', S_idx, flags_text, 'size', 'align', 'comment', 0, fields)
-            enum_size, enum_signed = 2, 1
+            enum_size, enum_signed = enum_row
             en = recompiler.EnumExpr('e_name', E_idx, enum_size, enum_signed, 'A,BB')
             tn = recompiler.TypenameExpr('t_name', T_idx)
             lit_su = ast.literal_eval(su.as_python_expr())
@@ -316,7 +316,11 @@ def tables_worker(args):
         D('num_enums==1', simp(ld(ctx + ctxl[8], 4)) == 1)
         D('enum.name', cstr(ld(e_p + el[0][0], 8)) == 'e_name')
         D('enum.type_index', bv(ld(e_p + el[0][1], 4), 32) == E_idx)
-        D('enum.type_prim==int16_t', simp(ld(e_p + el[0][2], 4)) == cffi_opcode.PRIM_INT16)
+        # the primitive the compiler's (size, signedness) of the enum denotes: the table of the C macro _cffi_prim_int
+        want_prim = {(1, 0): cffi_opcode.PRIM_UINT8, (1, 1): cffi_opcode.PRIM_INT8, (2, 0): cffi_opcode.PRIM_UINT16,
+                     (2, 1): cffi_opcode.PRIM_INT16, (4, 0): cffi_opcode.PRIM_UINT32, (4, 1): cffi_opcode.PRIM_INT32,
+                     (8, 0): cffi_opcode.PRIM_UINT64, (8, 1): cffi_opcode.PRIM_INT64}[enum_row]
+        D('enum.type_prim==the-integer-type-of-that-size-and-signedness', simp(ld(e_p + el[0][2], 4)) == want_prim)
         D('enum.enumerators', cstr(ld(e_p + el[0][3], 8)) == 'A,BB')
         t_p = simp(ld(ctx + ctxl[5], 8))
         D('num_typenames==1', simp(ld(ctx + ctxl[9], 4)) == 1)
@@ -497,6 +501,9 @@ def aggname_worker(args):
     return hutil.export(chk)
 
 
+ENUM_ROWS = [(1, 0), (1, 1), (2, 0), (2, 1), (4, 0), (4, 1), (8, 0), (8, 1)]
+
+
 def dispatch(args):
     if args[2] == 'aggname':
         return aggname_worker(args)
@@ -522,7 +529,8 @@ def run(chk):
             if 'OPAQUE' in fl_ or 'EXTERNAL' in fl_:
                 if bf:
                     continue
-            cases.append(P + ('tables', fl_, bf))
+            # the 8 table cases also walk through the 8 (size, signedness) rows an enum can have
+            cases.append(P + ('tables', fl_, bf, ENUM_ROWS[len([c for c in cases if c[2] == 'tables']) % 8]))
     for n in range(1, 6):
         cases.append(P + ('names', n))
     for agg in ('struct', 'union'):
